@@ -351,7 +351,8 @@ class RandomFunction(FunctionSamplingSet):  # pylint: disable=too-few-public-met
             fullsum = np.sum(np.sum(output, axis=2), axis=1)
 
             # Scale and translate to fit within center and amplitude
-            fullsum = fullsum * self.config["amplitude"] / self.config["num_terms"]
+            # (the sum runs over num_terms * input_dim sinusoids of amplitude at most 1)
+            fullsum = fullsum * self.config["amplitude"] / (self.config["num_terms"] * input_dim)
             fullsum += self.config["center"]
 
             # Return the result
